@@ -92,13 +92,40 @@ class FieldRef(V):
         self.tup, self.idx = tup, idx
 
 
+class LocRef(V):
+    """Reference to a local of the frame at depth `depth` (0 = outermost function)."""
+
+    def __init__(self, name, depth):
+        self.name, self.depth = name, depth
+
+
+CUR = [None]  # the state the executor is currently working on (for models that look through LocRefs)
+
+
+def frame_of(st, depth):
+    return st.locals if depth == len(st.frames) else st.frames[depth]
+
+
 def val_of(x):
     """Look through thin references."""
     if isinstance(x, Ref):
         return x.cell.v
     if isinstance(x, FieldRef):
         return x.tup.fs[x.idx]
+    if isinstance(x, LocRef):
+        return frame_of(CUR[0], x.depth).get(x.name, Opaque("unset:" + x.name))
     return x
+
+
+def store_through(r, v):
+    if isinstance(r, FieldRef):
+        r.tup.fs[r.idx] = v
+    elif isinstance(r, Ref):
+        r.cell.v = v
+    elif isinstance(r, LocRef):
+        frame_of(CUR[0], r.depth)[r.name] = v
+    else:
+        raise Unsupported("store through a non-reference")
 
 
 class Opaque(V):
@@ -335,6 +362,8 @@ class Exec:
                 return inner.cell.v
             if isinstance(inner, FieldRef):
                 return inner.tup.fs[inner.idx]
+            if isinstance(inner, LocRef):
+                return frame_of(st, inner.depth).get(inner.name, Opaque("unset:" + inner.name))
             if isinstance(inner, (Slice, Elem, Opaque)):
                 return inner
             raise Unsupported(f"deref of {inner}")
@@ -379,6 +408,9 @@ class Exec:
                 return
             if isinstance(inner, FieldRef):
                 inner.tup.fs[inner.idx] = val
+                return
+            if isinstance(inner, LocRef):
+                frame_of(st, inner.depth)[inner.name] = val
                 return
             raise Unsupported(f"write through {inner}")
         if p.startswith("(") and p.endswith(")"):
@@ -499,12 +531,12 @@ class Exec:
                     # taking the address of slice[idx]: the MIR has already asserted idx < len
                     st.events.append(("access", v.sl.buf, f"(+ {v.sl.off} {v.idx})", v.sl.len, v.idx, "index"))
                 return v
-            # reference to a local / field: make (or reuse) a cell
+            # reference to a local: by name, so that writes through it reach the local
             mm = re.fullmatch(r"_\d+", place)
             if mm:
-                cell = Box_(v)
-                st.locals[place] = v  # value stays; mutation through the ref is not tracked back
-                return Ref(cell)
+                if isinstance(v, Tup):
+                    return Ref(Box_(v)) if False else LocRef(place, len(st.frames))
+                return LocRef(place, len(st.frames))
             return Ref(Box_(v))
         # aggregates
         if rv.startswith("(") and rv.endswith(")"):
@@ -652,8 +684,10 @@ class Exec:
             diverging = mret is None
             args = [self.operand(st, a) for a in split_args(argstr)] if argstr.strip() else []
             ty = f.types.get(dest.strip(), "")
+            CUR[0] = st
             outs = self.call(st, callee, args, ty, depth)
             for (s2, val, kind, msg) in outs:
+                CUR[0] = s2
                 if kind == "return":
                     if diverging:
                         continue
@@ -950,13 +984,7 @@ def model_split_at(ex, st, callee, args, ty):
 def model_mem_take(ex, st, callee, args, ty):
     r = args[0]
     cur = val_of(r)
-    empty = Slice("empty", "0", "0")
-    if isinstance(r, FieldRef):
-        r.tup.fs[r.idx] = empty
-    elif isinstance(r, Ref):
-        r.cell.v = empty
-    else:
-        raise Unsupported("mem::take on a value")
+    store_through(r, Slice("empty", "0", "0"))
     return m_ret(st, cur)
 
 
@@ -978,8 +1006,36 @@ def model_exact_len(ex, st, callee, args, ty):
     raise Unsupported("ExactSizeIterator::len")
 
 
+def model_as_ptr(ex, st, callee, args, ty):
+    sl = val_of(args[0])
+    if isinstance(sl, Slice):
+        return m_ret(st, Elem(sl, "0"))  # pointer to the first element
+    return m_ret(st, Opaque("ptr"))
+
+
+def model_swap_nonoverlapping(ex, st, callee, args, ty):
+    a, b, n = args
+    s = st.fork()
+    if isinstance(a, Elem) and isinstance(b, Elem) and isinstance(n, Int):
+        s.events.append(("swapn", f"(+ {a.sl.off} {a.idx})", f"(+ {b.sl.off} {b.idx})", n.t, a.sl.len, b.sl.len))
+    else:
+        s.events.append(("call", callee))
+    return m_ret(s, Tup([]))
+
+
+def model_mem_swap(ex, st, callee, args, ty):
+    a, b = args
+    va, vb = val_of(a), val_of(b)
+    store_through(a, vb)
+    store_through(b, va)
+    return m_ret(st, Tup([]))
+
+
 STD_MODELS = [
     (r"^core::mem::take::<", model_mem_take),
+    (r"^core::mem::swap::<", model_mem_swap),
+    (r"slice::<impl \[.*\]>::as_(mut_)?ptr$", model_as_ptr),
+    (r"^(core::ptr::)?swap_nonoverlapping::<", model_swap_nonoverlapping),
     (r"slice::<impl \[.*\]>::split_first(_mut)?$", model_split_first(False)),
     (r"slice::<impl \[.*\]>::split_last(_mut)?$", model_split_first(True)),
     (r"^(core::panicking::)?panic(_fmt|_nounwind|_const.*|_explicit)?$", model_panic),
